@@ -409,7 +409,8 @@ def connect (cfg : Cfg) (c : Cli) (nss : List Ns) (auth : Auth) (wait : Bool) (o
         let r := connectLoop cfg auth.real c1 nss reacts
         if wait && !sameSet (r.1.namespaces.map (·.1)) nss then
           let r3 := apiDisconnect cfg r.1
-          (r3.1, oa ++ r.2 ++ r3.2 ++ [.raised .connectionError])
+          -- `self.disconnect(); self.namespaces = {}` (repair of F7, /repo `fix:` commit)
+          ({ r3.1 with namespaces := [] }, oa ++ r.2 ++ r3.2 ++ [.raised .connectionError])
         else ({ r.1 with connected := true }, oa ++ r.2 ++ [.result .none])
 
 def step (cfg : Cfg) (c : Cli) : Input → Cli × List Out
